@@ -109,14 +109,18 @@ def main(argv):
         if tr.get("status") == "crash" or bad:
             broken.append({"what": "translator", "detail": (bad or tr.get("errors"))[:5]})
     # 2 build -------------------------------------------------------------------------------
-    prop_file = os.path.join(C.LEAN, mod.LEAN_MODULE.replace(".", "/") + ".lean")
-    theorems = C.theorems_of(prop_file)
+    lean_modules = [mod.LEAN_MODULE] + list(getattr(mod, "EXTRA_LEAN_MODULES", []))
+    theorems_by_module = {}
+    for lm in lean_modules:
+        pf = os.path.join(C.LEAN, lm.replace(".", "/") + ".lean")
+        theorems_by_module[lm] = C.theorems_of(pf) if os.path.exists(pf) else []
+    theorems = [t for lm in lean_modules for t in theorems_by_module[lm]]
     spec_ok, spec_out = (True, "") if a.skip_build else C.lake_build(list(mod.SPEC_DRIVER_MODULES))
     if not spec_ok:
         C.log(spec_out[-3000:])
         print(f"[{mod.ID}] infrastructure failure: the spec driver does not build", file=sys.stderr)
         return 2
-    build_ok, build_out = (True, "") if a.skip_build else C.lake_build([mod.LEAN_MODULE] + list(mod.DRIVER_MODULES))
+    build_ok, build_out = (True, "") if a.skip_build else C.lake_build(lean_modules + list(mod.DRIVER_MODULES))
     discharged = len(theorems)
     audit_rep = {}
     if not build_ok:
@@ -125,10 +129,31 @@ def main(argv):
         discharged = 0
     else:
         # 3 audit ---------------------------------------------------------------------------
-        ok, audit_rep = C.audit(mod.ID, mod.LEAN_MODULE, theorems)
+        ok, audit_rep = True, {"audited": 0, "bad_axioms": {}, "axioms_used": []}
+        for lm in lean_modules:
+            ok1, rep1 = C.audit(mod.ID, lm, theorems_by_module[lm])
+            ok = ok and ok1
+            audit_rep["audited"] += rep1.get("audited", 0)
+            audit_rep["bad_axioms"].update(rep1.get("bad_axioms", {}))
+            audit_rep["axioms_used"] = sorted(set(audit_rep["axioms_used"]) | set(rep1.get("axioms_used", [])))
+            for k in ("missing", "forbidden_tokens", "audit_output"):
+                if rep1.get(k):
+                    audit_rep.setdefault(k, [])
+                    audit_rep[k] = audit_rep[k] + (rep1[k] if isinstance(rep1[k], list) else [rep1[k]])
         if not ok:
             broken.append({"what": "axiom/keyword audit", "detail": audit_rep})
             discharged = audit_rep.get("audited", 0) - len(audit_rep.get("bad_axioms", {}))
+        # thorough tier: independent re-check of the compiled proofs with leanchecker
+        if tier == "thorough" and not a.skip_build:
+            t1 = time.time()
+            try:
+                rc_lc, out_lc = C.sh(["lake", "env", "leanchecker"] + lean_modules, cwd=C.LEAN, timeout=1800)
+            except Exception as e:  # noqa  (timeout: infrastructure, not a verdict)
+                rc_lc, out_lc = None, str(e)
+            run.extra["leanchecker"] = {"module": mod.LEAN_MODULE, "rc": rc_lc, "wall_s": round(time.time() - t1, 1),
+                                        "output_tail": (out_lc or "")[-300:]}
+            if rc_lc not in (0, None):
+                broken.append({"what": "leanchecker", "detail": (out_lc or "")[-800:]})
     # 4 correspondence + spec ---------------------------------------------------------------
     lines = corpus_lines(mod.ID) + list(mod.cases(run))
     model_usable = build_ok or _driver_builds(mod)
@@ -185,7 +210,8 @@ def main(argv):
     cov = {
         "obligations": max(1, len(theorems)),
         "discharged": discharged,
-        "checker_cmd": f"cd lean && lake build {mod.LEAN_MODULE} && lake env lean <#print axioms of {len(theorems)} theorems>",
+        "checker_cmd": f"cd lean && lake build {mod.LEAN_MODULE} && lake env lean <#print axioms of {len(theorems)} theorems>"
+                       + (f" && lake env leanchecker {mod.LEAN_MODULE}" if tier == "thorough" else ""),
         "trusted_base": ["Lean 4.33 kernel", "axioms: " + ", ".join(audit_rep.get("axioms_used", []) or ["none"]),
                          "tools/translate.py", "harness (generators, canonicalisation)"] + list(mod.TRUSTED),
         "theorems": theorems,
